@@ -47,6 +47,10 @@ CLAUSES = (
     "exc-once",
     "api-call",
     "foreign-exception",
+    "watch-remove",
+    "watch-remove-again",
+    "idle-remove",
+    "idle-remove-again",
 )
 REQUIRE = {
     **{f"eval:{c}": 200 for c in CLAUSES},
@@ -62,6 +66,8 @@ REQUIRE = {
     **{f"callable_shape:{sh}:{op}": 20 for sh in SHAPES for op in ("alarm", "watch_file", "enter_idle")},
     **{f"callback_returned:{r}:{k}": 10 for r in RETURN_VALUES if r != "none" for k in ("alarm", "watch", "idle")},
     **{f"callback_returned_not_none:{k}:{lp}": 3 for k in ("alarm", "watch", "idle") for lp in ("select", "zmq", "asyncio", "tornado", "twisted", "trio")},
+    **{f"churn_rounds:{k}:{lp}": 30 for k in ("alarm", "watch", "idle") for lp in ("select", "zmq", "asyncio", "tornado", "twisted", "trio")},
+    "eval_later_run:idle-before-quiescent:owed-from-the-previous-run": 50,
     **{f"raised:{k}": 10 for k in EXC_KINDS},
     **{f"raised_not_boom_from:{c}-callback": 50 for c in ("alarm", "watch", "idle")},
     **{f"raised:{k}:zmq": 1 for k in ("zmq_again", "zmq_eintr", "zmq_eagain", "zmq_other", "zmq_term")},
@@ -114,8 +120,11 @@ ASSUMES = [
     "'loop continues after an exception' = a quiescent wait after the raising callback followed by another alarm/watch callback",
     "a real-clock violation is reported only if it reproduces in at least one of two re-executions of the same program "
     "(until the signature has reproduced 3 times in that worker)",
-    "return values of remove_watch_file / remove_enter_idle and of remove_alarm after the alarm ran are counted as observations, "
-    "not judged (the statement only fixes them for a pending alarm)",
+    "remove_watch_file / remove_enter_idle results are judged by the EventLoop docstrings ('True if the input file exists' / 'True if the handle "
+    "was removed'): first removal of a live registration True, further ones False; remove_alarm after the alarm ran is an observation only",
+    "the idle obligation survives the end of run(): an alarm/watch callback that ran at the end of run() N (typically the one whose exception ended "
+    "it) with no complete idle pass since is owed the idle callbacks before the first quiescent wait of run() N+1 on the same loop object (the "
+    "statement says 'before the loop NEXT goes quiescent'; select, twisted and trio start every run with an idle pass)",
     "callbacks that still run in the same dispatch batch after another callback raised are observations; only the "
     "consequences named in the statement are judged (which exception leaves run(), whether the loop goes on waiting)",
     "exception classes: every class is owed the same treatment as Boom (same object out of run(), loop stopped, not raised again by the next run()); "
@@ -195,6 +204,12 @@ class Tally:
         self.count("api_calls", sum(1 for ev in hist if ev["e"] == "call"))
         if mode == "virtual":
             self.count("virtual_blocks", sum(1 for ev in hist if ev["e"] == "block"))
+        # handle churn
+        for ev in hist:
+            if ev["e"] == "drop" and ev["id"][0] == "v":
+                k = {"a": "alarm", "w": "watch", "i": "idle"}[ev["id"][1]]
+                self.count(f"churn_rounds:{k}:{lp}")
+                self.count(f"churn_rounds:{k}")
         # callable shapes registered, return values of callbacks
         for ev in hist:
             if ev["e"] == "call" and "shape" in ev and "exc" not in ev:
